@@ -51,7 +51,7 @@ import (
 
 func TestMain(m *testing.M) { ev.Main(m) }
 
-var rec = ev.For("C33", "browse queries (node x direction x reference type x includeSubtypes x class mask) against namespace 0 and rapid-generated namespaces; non-trivial = the unfiltered reference list of the node has at least 2 references and the expected result is a non-empty proper subset of it; distinct by hash of (node, unfiltered reference multiset, query)")
+var rec = ev.For("C33", "browse queries (node x direction x reference type x includeSubtypes x class mask) against namespace 0 and rapid-generated namespaces (20-60 nodes, up to four custom reference types whose node ids are numeric, string, GUID, opaque, or numeric ids equal to namespace-0 reference type ids); non-trivial = the unfiltered reference list of the node has at least 2 references and the expected result is a non-empty proper subset of it; distinct by hash of (node, unfiltered reference multiset, query)")
 
 // ---------------------------------------------------------------------------
 // case data
@@ -76,6 +76,11 @@ type nodeSpec struct {
 type nsSpec struct {
 	Nodes  []nodeSpec `json:"nodes"`
 	Custom []string   `json:"custom"` // which custom reference types exist: custA custB custA2 custN
+	// CustomIDs: node ids of the custom reference types: "" / "numeric" =
+	// (ns, 500+i); "string" / "guid" / "opaque" = non-numeric ids (IntID 0 for
+	// all of them); "collide" = numeric ids that equal ns0 reference type ids
+	// (custA = (ns,47) like HasComponent, custB = (ns,35), custA2 = (ns,33), custN = (ns,32))
+	CustomIDs string `json:"custom_ids,omitempty"`
 	Link   string     `json:"link"`   // reference type from ns0 Objects to the generated Objects folder
 }
 
@@ -162,6 +167,7 @@ func genNS(t *rapid.T) nsSpec {
 			s.Custom = append(s.Custom, c)
 		}
 	}
+	s.CustomIDs = rapid.SampledFrom([]string{"numeric", "numeric", "string", "string", "guid", "opaque", "collide", "collide"}).Draw(t, "customIDs")
 	s.Link = rapid.SampledFrom([]string{"Organizes", "HasComponent"}).Draw(t, "link")
 	n := rapid.IntRange(20, 60).Draw(t, "nodes")
 	types := append([]string{}, refTypeNames...)
@@ -431,7 +437,20 @@ func build(f *fixture, spec nsSpec) (*world, error) {
 		if _, ok := customParents[c]; !ok {
 			return nil, fmt.Errorf("malformed case: custom type %q", c)
 		}
-		w.custom[c] = ua.NewNumericNodeID(nsi, uint32(500+ci))
+		switch spec.CustomIDs {
+		case "", "numeric":
+			w.custom[c] = ua.NewNumericNodeID(nsi, uint32(500+ci))
+		case "string":
+			w.custom[c] = ua.NewStringNodeID(nsi, "RefType."+c)
+		case "guid":
+			w.custom[c] = ua.NewGUIDNodeID(nsi, fmt.Sprintf("%08X-AAAA-4000-8000-%012X", nsi, 500+ci))
+		case "opaque":
+			w.custom[c] = ua.NewByteStringNodeID(nsi, []byte("reftype/"+c))
+		case "collide":
+			w.custom[c] = ua.NewNumericNodeID(nsi, map[string]uint32{"custA": id.HasComponent, "custB": id.Organizes, "custA2": id.HierarchicalReferences, "custN": id.NonHierarchicalReferences}[c])
+		default:
+			return nil, fmt.Errorf("malformed case: custom id kind %q", spec.CustomIDs)
+		}
 	}
 	// reference lists of the generated nodes
 	refs := make([][]*ua.ReferenceDescription, n)
